@@ -157,14 +157,75 @@ Definition fil_case (full : bool) (c : filcase) : option mismatch :=
   end.
 
 (* ---------------------------------------------------------------------------------------------- *)
+(* receive-path cases: the filter sits inside the real RecvHandler, which feeds a real Handler.  A
+   datagram event carries its source socket address, the content of expected_responses and the
+   packet kind (None = undecodable).  Observed: the fate ("dropped" without the stage), the source
+   address handed to the handler where the handler shows it (the WHOAREYOU query it raises for a
+   message packet of an unknown session; the unrecognized-frame report), the global lists. *)
 
-Inductive c18case := CLim (c : limcase) | CFil (c : filcase) | CInb (c : filcase).
+Inductive ievent :=
+| IRecv (expected : list saddr) (src : saddr) (packet : option pkind)
+| IFil (e : fevent).
+
+Definition enc_fwd (x : fate) (pk : option pkind) (a : saddr) : list N :=
+  let shown := [1; sa_ip a; sa_port a; sa_flow a; sa_scope a] in
+  match x, pk with
+  | Unrecognized, _ => shown
+  | Deliver, Some (PMessage _) => shown
+  | _, _ => [0]
+  end.
+
+Definition istep (f : pfilter) (p : pbl) (e : ievent) (now : N) : pfilter * pbl * list N :=
+  match e with
+  | IFil e => let '(f', p', o) := fstep f p e now in (f', p', enc_fobs_merged o)
+  | IRecv ex src pk =>
+    let '(f', p', x, a) := recv_inbound f p ex src pk now in
+    (f', p', enc_fobs_merged (OFate x) ++ enc_fwd x pk a)
+  end.
+
+Definition rcv_obs (r : pfilter * pbl * list N) : list N :=
+  let '(f, p, o) := r in o ++ dump_pbl p.
+
+Definition rcstep := (ievent * N * N * list N)%type.
+
+Fixpoint rcv_steps (f : pfilter) (p : pbl) (steps : list rcstep) (idx : N) : option (N * list N * list N) :=
+  match steps with
+  | [] => None
+  | (e, lo, hi, expect) :: rest =>
+    let r1 := istep f p e lo in
+    let r2 := istep f p e hi in
+    let e1 := rcv_obs r1 in
+    if list_N_eqb e1 (rcv_obs r2) then
+      if list_N_eqb e1 expect then rcv_steps (fst (fst r1)) (snd (fst r1)) rest (idx + 1)
+      else Some (idx, e1, expect)
+    else None
+  end.
+
+Definition rcvcase :=
+  (N * bool * option (N * (N * N) * option (N * N) * option (N * N)) * option N * option N * option N
+   * list rcstep)%type.
+
+Definition rcv_case (c : rcvcase) : option mismatch :=
+  let '(id, en, r, ban, mn, mb, steps) := c in
+  match mk_rate r with
+  | None => Some {| mm_case := id; mm_step := 0; mm_model := [99]; mm_impl := [] |}
+  | Some rate =>
+    match rcv_steps (new_filter en rate ban mn mb) empty_pbl steps 0 with
+    | None => None
+    | Some (i, m, e) => Some {| mm_case := id; mm_step := i; mm_model := m; mm_impl := e |}
+    end
+  end.
+
+(* ---------------------------------------------------------------------------------------------- *)
+
+Inductive c18case := CLim (c : limcase) | CFil (c : filcase) | CInb (c : filcase) | CRcv (c : rcvcase).
 
 Fixpoint check_all (ks : list c18case) : list mismatch :=
   match ks with
   | [] => []
   | k :: rest =>
-    match (match k with CLim c => lim_case c | CFil c => fil_case true c | CInb c => fil_case false c end) with
+    match (match k with CLim c => lim_case c | CFil c => fil_case true c | CInb c => fil_case false c
+                    | CRcv c => rcv_case c end) with
     | Some m => m :: check_all rest
     | None => check_all rest
     end
